@@ -93,7 +93,22 @@ pub fn honest(seed: u64, d: u64, pl: &Pool, rep: &mut Report) {
     let rt = runtime(seed);
     rt.block_on(async {
         let mut rng = Rng::new(seed ^ 0xC11);
-        let mut v = ServiceRig::start(&mut rng, ServiceCfg { mode: Mode::Ip4, local_enr_has_addr: true, ..Default::default() }).await;
+        // the requester's own admission policy (table filter, address limit) has no say in what
+        // counts as a well-formed answer
+        let vfilter = rng.below(6);
+        let v_ip_limit = rng.chance(1, 4);
+        let mut v = ServiceRig::start(&mut rng, ServiceCfg { mode: Mode::Ip4, local_enr_has_addr: true, tweak: Box::new(move |b| {
+            match vfilter {
+                // (each of these admits the responder itself, 10.0.0.77, so that the lookup asks it)
+                0 => { b.table_filter(|e: &Enr| e.ip4().is_some_and(|ip| ip.octets()[3] % 2 == 1)); }
+                1 => { b.table_filter(|e: &Enr| e.ip4().is_some_and(|ip| ip.octets()[..3] == [10, 0, 0])); }
+                2 => { b.table_filter(|e: &Enr| e.size() < 200); }
+                _ => {}
+            }
+            if v_ip_limit {
+                b.ip_limit();
+            }
+        }) }).await;
         let max_nodes = *rng.pick(&[16usize, 16, 64]);
         let mut r = ServiceRig::start(&mut rng, ServiceCfg { mode: Mode::Ip4, local_enr_has_addr: true, tweak: Box::new(move |b| {
             b.max_nodes_response(max_nodes);
@@ -175,7 +190,7 @@ pub fn honest(seed: u64, d: u64, pl: &Pool, rep: &mut Report) {
         if distances.contains(&0) {
             rep.count("honest_exchanges_requesting_distance_0");
         }
-        rep.fingerprint(&("honest", d, npackets.min(8), has_v));
+        rep.fingerprint(&("honest", d, npackets.min(8), has_v, vfilter.min(3), v_ip_limit));
         // finish the lookup
         for _ in 0..40 {
             let msgs = v.take_handler_in();
